@@ -255,6 +255,7 @@ POOLS = [
     {"i1": 2**63, "i0": -1, "f1": 5e-324, "sa": "\"\\/\b\f\n\r\t\u0000", "s": "a.b"},
     {"i1": 2**31, "i0": 0, "f1": -0.0, "sa": "x" * 10000, "s": " "},
     {"i1": 10**40, "i0": -(2**63) - 1, "f1": 0.1, "sa": "  \x7f", "s": "0"},
+    {"i1": -1, "i0": 1, "f1": 1e-7, "sa": "\ud83d", "s": "\udfff x"},     # lone surrogates (JSON carries them as \\uXXXX escapes)
 ]
 
 
